@@ -19,7 +19,7 @@ func addBoardRecord(board *ptttype.BoardHeaderRaw) (bid ptttype.Bid, err error) 
 
 	// able to add the board to existing empty board.
 	if bid.IsValid() {
-		err = cmsys.SubstituteRecord(ptttype.FN_BOARD, board, ptttype.BOARD_HEADER_RAW_SZ, int32(bid))
+		err = cmsys.SubstituteRecord(ptttype.FN_BOARD, board, ptttype.BOARD_HEADER_RAW_SZ, int32(bid.ToBidInStore()))
 		if err != nil {
 			return 0, err
 		}
